@@ -31,6 +31,13 @@ def properPrefix (p q : Path) : Bool := isPrefix p q && p.length < q.length
 def WF (t : Tree) : Bool :=
   !t.isLeaf && t.noEmpty && (sortBy id t.leafNums == List.range' 1 t.leafNums.length) && !t.leafNums.isEmpty
 
+/-- as `WF`, but a one-token sentence may be the bare token (what collapsing a unary root chain
+    over a single token documents: "may not make sense for sentences of length one") -/
+def WFc (t : Tree) : Bool :=
+  match t with
+  | leaf n _ => n == 1
+  | node _ _ => WF t
+
 /-- `order` lists the storage indices of `ks` by increasing leftmost token -/
 def childrenOK (ks : List Tree) (order : List Nat) : Bool :=
   -- a permutation of 0..k-1
